@@ -38,3 +38,49 @@ Example C10_ex :
      [[([false; false], Some 1); ([true; false], Some 2)]; [([false; true], Some 3)]; [([true; false], None)]] E)
   = FB (FB (FL [false; false] 1) (FL [false; true] 3)) FE.
 Proof. vm_compute. reflexivity. Qed.
+
+(* ---- proofs ---- *)
+From LE Require Import SMT.Verify SMT.PathProofs SMT.VerifyProofs.
+
+(* The faithful model of smt.CalculateRoot, run on a single query, is the bottom-up path recomputation [recompute]
+   (bitmap bottom-first, sibling hashes in consumption order, direction = key bit at index height-1). *)
+Theorem C10_calculate_root_single_query :
+  forall (Hsh : Type) (hempty : Hsh) (hbranch : Hsh -> Hsh -> Hsh) (heqb : Hsh -> Hsh -> bool) (hnull : Hsh -> bool),
+    (forall h, hnull h = false) ->
+    forall kb bm sibs h,
+      calculate_root hempty hbranch heqb hnull sibs [W kb bm h] = recompute hempty hbranch (to_bools kb) bm sibs h.
+Proof. exact @calculate_root_single. Qed.
+
+(* PARTIAL (single query).  Full statement aimed at: for every query set, [verify keys sibs queries (root of m) = VTrue]
+   implies that every (requested key, query) pair states a true claim about m.  Proved here: for ONE query, under an
+   injective, domain-separated hash, if the recomputed root equals the hash of a well-formed trie then
+   - a non-empty claim (qk, v) is in the map, and every key of the map that shares the first [height] bits with qk is qk
+     itself (so a requested key k <> qk with that common prefix — what Verify checks — is absent);
+   - an empty claim means that no key of the map has those first [height] bits (the requested key is absent).
+   Missing for the full statement: the multi-query merge of CalculateRoot (sibling pairing, insertAndFilterQueries) and
+   the byte-level wrapper of Verify; both are covered by the correspondence runs (every accepted tampered proof must
+   state only true claims) but not by a Coq proof. *)
+Theorem C10_verify_sound_single_query_partial :
+  forall (V Hsh : Type) (hempty : Hsh) (hleaf : key -> V -> Hsh) (hbranch : Hsh -> Hsh -> Hsh),
+    (forall a b c d, hbranch a b = hbranch c d -> a = c /\ b = d) ->
+    (forall k v k' v', hleaf k v = hleaf k' v' -> k = k' /\ v = v') ->
+    (forall k v a b, hleaf k v <> hbranch a b) ->
+    (forall k v, hleaf k v <> hempty) ->
+    (forall a b, hbranch a b <> hempty) ->
+    forall n (t : @T V) qk bm sibs,
+      wf n 0 t -> length bm <= length qk ->
+      (forall v, recompute hempty hbranch qk bm sibs (hleaf qk v) = Some (hash hempty hleaf hbranch t) ->
+         In (qk, v) (tomap t) /\
+         forall k v', In (k, v') (tomap t) -> firstn (length bm) k = firstn (length bm) qk -> k = qk /\ v' = v) /\
+      (recompute hempty hbranch qk bm sibs hempty = Some (hash hempty hleaf hbranch t) ->
+         forall k v', In (k, v') (tomap t) -> firstn (length bm) k <> firstn (length bm) qk).
+Proof. exact @single_query_sound. Qed.
+
+(* every trie produced by any history is well-formed (so the theorem above applies to every reachable trie) *)
+Theorem C10_reachable_tries_wf :
+  forall (V : Type) (n : nat) (batches : list (list (@op V))),
+    keys_ok n batches -> wf n 0 (fold_left (batch_update n) batches E).
+Proof.
+  intros V n batches Hk.
+  exact (proj1 (@batches_tree_map V unit tt (fun _ _ => tt) (fun _ _ => tt) n batches E [] Hk I (Permutation.Permutation_refl _))).
+Qed.
